@@ -13,6 +13,7 @@ def run(tier, seed):
     n2 = common.behaviours_leg(chk, rel, 90 if tier == "quick" else 1500)
     chk.leg("trace validation (Layer A judge)", events=n + n2,
             inputs="pk: all-00, all-FF, t1 = 1023 everywhere, single-bit walks, random strings; sk: generated keys re-serialised twice; derived keys")
+    common.nohooks_leg(chk, "roundtrip", profile="checked", nrandom=16)
     common.mc_leg(chk, "MC_API", tier=tier)
     common.mc_variants(chk, "MC_Keys", (44, 65, 87), tier=tier, workers=2)
     chk.cov["exhaustive"] = False
